@@ -81,6 +81,18 @@ def native_of(T_, mv):
                 raise ValueError("model list too long to materialise (%d elements)" % mv["list_len"])
             return head + [head[-1]] * (mv["list_len"] - len(head))
         return [native_of(T_.elem, x) for x in mv]
+    if isinstance(T_, TObj):
+        cls = T_.cls
+        if "fields" not in mv:
+            raise ValueError("model has no field values for object of %s" % getattr(cls, "__name__", cls))
+        from .contracts import REGISTRY
+        ftypes = REGISTRY.class_fields.get(cls, {})
+        obj = cls.__new__(cls)
+        for k, fv in mv["fields"].items():
+            if isinstance(fv, str) and fv.startswith("<"):
+                continue
+            setattr(obj, k, native_of(ftypes[k], fv))
+        return obj
     if isinstance(T_, TOpaque):
         if T_.native is None:
             raise ValueError("opaque %s has no native representative" % T_.tag)
@@ -147,6 +159,28 @@ def _replay_obligation(contract, agg_ob, pid):
         out["verdict"] = "not_replayable"
         out["detail"] = "cannot build native arguments: %s" % e
         return out
+    try:
+        from . import contracts as _cm
+        nums = set()
+
+        def collect(x, d=0):
+            if isinstance(x, bool) or d > 6:
+                return
+            if isinstance(x, (int, np.integer)):
+                nums.add(int(x))
+            elif isinstance(x, (list, tuple)):
+                for y in x:
+                    collect(y, d + 1)
+            elif hasattr(x, "__dict__"):
+                for y in vars(x).values():
+                    collect(y, d + 1)
+        collect(list(args.values()))
+        uni = set()
+        for n_ in list(nums)[:200]:
+            uni.update(range(n_ - 2, n_ + 3))
+        _cm.REPLAY_UNIVERSE = sorted(uni)[:5000]
+    except Exception:
+        pass
     out["args_native"] = {k: v for k, v in args.items()}
     out["args_repr"] = {k: (repr(v) if not (isinstance(v, list) and len(v) > 64) else "list of %d elements starting %r" % (len(v), v[:8])) for k, v in args.items()}
     try:
@@ -179,8 +213,12 @@ def _replay_obligation(contract, agg_ob, pid):
                 if w is not None and eval(w, env):
                     problems.append("did not raise %s although (%s) holds" % (exc.__name__, w))
             for i, cl in enumerate(contract.ensures):
+                if cl.startswith("lemma:"):
+                    continue
                 try:
                     ok = eval(cl, env)
+                except NotImplementedError:
+                    continue   # proof-only clause (ghost terms)
                 except Exception as e:
                     ok = False
                     problems.append("ensures[%d] raised %s natively" % (i, e))
